@@ -12,7 +12,7 @@ from .lib import (Out, Proxy, ProtoError, TcpOrigin, addr_v5, base_cfg, client_s
 B_CLOSE = 3.0
 USER, PASS = "alice", "s3cret"
 
-BEHAVIOURS = ["ok", "delay", "refuse", "garbage", "closebefore", "closeafter", "partial"]
+BEHAVIOURS = ["ok", "delay", "refuse", "refuseverbose", "garbage", "closebefore", "closeafter", "partial"]
 
 
 class FakeUpstreams:
@@ -52,7 +52,10 @@ class FakeUpstreams:
             await w.drain()
             await asyncio.sleep(0.2)
             return
-        if beh == "refuse":
+        if beh == "refuseverbose" and proto == "http":
+            # a refusal with a long head: the proxy quotes it in its own error body (bodies over 1 kB)
+            fail_bytes = b"HTTP/1.1 403 Forbidden\r\n" + b"".join(b"X-Reason-%d: %s\r\n" % (i, b"policy " * 6) for i in range(30)) + b"Content-Length: 0\r\n\r\n"
+        if beh in ("refuse", "refuseverbose"):
             w.write(fail_bytes)
             await w.drain()
             self.log(proto, host, "refused")
